@@ -330,8 +330,12 @@ func (w *world) cancelID(id int, fromCallback bool) string {
 			map[string]string{"oracle": "cancel-true-nothing-pending", "trigger": trig})
 	case got && exp != nil && !fromCallback && allBlocked && sizeAfter == sizeBefore:
 		// every worker is provably inside a blocked callback, so a pending task can only be in the queue
-		w.fail("cancel-result", fmt.Sprintf("Cancel(%d) returned true but the queue size stayed %d while all workers were blocked in callbacks: the task had been dropped by the size bound", id, sizeAfter),
-			map[string]string{"oracle": "cancel-true-nothing-pending", "trigger": "size-bound"})
+		trig := "queue-size-unchanged"
+		if w.m > 0 {
+			trig = "size-bound"
+		}
+		w.fail("cancel-result", fmt.Sprintf("Cancel(%d) returned true but the queue size stayed %d while all workers were blocked in callbacks: the task was not pending (max size %d)", id, sizeAfter, w.m),
+			map[string]string{"oracle": "cancel-true-nothing-pending", "trigger": trig})
 	case !got && exp != nil:
 		trig := "pending"
 		if exp.fromCallback {
